@@ -365,7 +365,25 @@ func (s *sess) oracleLifecycle(actions []string) {
 	ce := rec.Events[ci]
 	allowed := s.allowedReasons(actions, ce.At)
 	if !allowed[closes[0]] {
-		x.Fail("close-reason%s: closed with %q at %v, injected causes allow %v", fp, closes[0], ce.At, sortedKeys(allowed))
+		// fingerprint: the reason obtained and the injected causes / server writes it raced with
+		// (other neutral traffic left out, so that supersets of a failing pair map to the same class)
+		var with []string
+		seen := map[string]bool{}
+		for _, a := range actions {
+			if a == "send2" {
+				a = "send"
+			}
+			if (s.isCause(a) || a == "send") && !seen[a] {
+				seen[a] = true
+				with = append(with, a)
+			}
+		}
+		sort.Strings(with)
+		late := ""
+		if ce.At >= 30*time.Second {
+			late = " late"
+		}
+		x.Fail("close-reason[%s got=%q%s with=%s]: closed with %q at %v, injected causes allow %v (actions %v)", s.kind, closes[0], late, strings.Join(with, "+"), closes[0], ce.At, sortedKeys(allowed), actions)
 	}
 	if ce.State != "closed" {
 		x.Fail("close-state%s: close event fired in state %q", fp, ce.State)
